@@ -68,6 +68,14 @@ PointCases(g) ==
              o \in {"pt.dbl", "pt.neg", "pt.to_affine", "pt.is_zero"}, ra \in UNION { Reps(g, x) : x \in { P3(g), <<>>, NonSub(g) } }, al \in {0, 1}, api \in Apis })
   \o SetToSeq({ [op |-> o, g |-> g, rel |-> "unary", a |-> ra, alias |-> al, api |-> api, src |-> "gen"] :
              o \in {"pt.from_affine", "pt.aneg", "pt.on_curve"}, ra \in UNION { AffReps(g, x) : x \in { P3(g), <<>>, NonSub(g) } }, al \in {0, 1}, api \in Apis })
+  \o SetToSeq({ [op |-> o, g |-> g, rel |-> "unary", a |-> ra, alias |-> al, api |-> "cpp", src |-> "gen"] :
+             o \in {"pt.copy", "pt.set"}, ra \in UNION { Reps(g, x) : x \in { P3(g), <<>> } }, al \in {0, 1} })
+  \o SetToSeq({ [op |-> o, g |-> g, rel |-> "unary", a |-> ra, alias |-> al, api |-> "cpp", src |-> "gen"] :
+             o \in {"pt.acopy", "pt.aset"}, ra \in UNION { AffReps(g, x) : x \in { P3(g), <<>> } }, al \in {0, 1} })
+  \o (IF g = 1 THEN SetToSeq({ [op |-> "pt.endo", g |-> g, rel |-> "unary", a |-> ra, alias |-> al, api |-> "cpp", src |-> "gen"] :
+                               ra \in UNION { Reps(g, x) : x \in { P3(g), P5(g), <<>> } }, al \in {0, 1} })
+       ELSE SetToSeq({ [op |-> "pt.frob", g |-> g, rel |-> "unary", a |-> ra, power |-> k, alias |-> al, api |-> "cpp", src |-> "gen"] :
+                       ra \in UNION { Reps(g, x) : x \in { P3(g), P5(g), <<>> } }, k \in {0, 1}, al \in {0, 1} }))
   \o SetToSeq({ [op |-> "pt.on_curve", g |-> g, rel |-> "offcurve", a |-> <<RawF(g, P3(g)[1]), RawF(g, P5(g)[2]), 0>>, alias |-> 0, api |-> "cpp", src |-> "gen"] })
   \o SetToSeq({ [op |-> "pt.in_subgroup", g |-> g, rel |-> "unary", a |-> AffRaw(g, x), alias |-> 0, api |-> "cpp", src |-> "gen"] : x \in { P3(g), NonSub(g), SMul(g, Sub(RMod, One), Gen(g)) } })
 
@@ -96,8 +104,18 @@ ScalarCases(g) ==
   SetToSeq({ [op |-> "mul.fast", g |-> g, base |-> b.base, affine |-> b.affine, k |-> Pad(s, 32), alias |-> al, api |-> api, src |-> "gen"] :
              b \in { bb \in Bases(g) : bb.sub = 1 }, s \in Scalars(256), al \in {0, 1}, api \in Apis })
   \o SetToSeq(UNION { { [op |-> "mul.gen", g |-> g, routine |-> rt, bits |-> bits, base |-> b.base, affine |-> b.affine, k |-> Pad(s, bits \div 8), alias |-> 0, api |-> "cpp", src |-> "gen"] :
-             rt \in {"wnaf", "doubleadd", "table", "multiply"},
+             rt \in {"wnaf", "wnaf_s", "doubleadd", "table", "multiply"},
              b \in { bb \in Bases(g) : Tier # "quick" \/ bb.affine = 0 }, s \in Scalars(bits) } : bits \in {64, 128, 256, 512} })
+  \o (IF g = 1
+      THEN SetToSeq({ [op |-> "mul.endo2", g |-> 1, base |-> b.base, affine |-> 0, c0 |-> Pad(c[1], 32), c1 |-> Pad(c[2], 32), n0 |-> n[1], n1 |-> n[2],
+                       alias |-> al, api |-> "cpp", src |-> "gen"] :
+                      b \in { bb \in Bases(g) : bb.sub = 1 /\ bb.affine = 0 },
+                      c \in { <<Zero, Zero>>, <<One, Zero>>, <<Zero, One>>, <<Sub(Pow2(128), One), Sub(Pow2(127), One)>>, <<ModPow2(Rnd(41), 128), ModPow2(Rnd(42), 128)>>,
+                              <<ModPow2(Rnd(43), 128), Zero>>, <<FromNat(17), Sub(Pow2(128), FromNat(15))>> },
+                      n \in { <<0, 0>>, <<1, 0>>, <<0, 1>>, <<1, 1>> }, al \in {0, 1} })
+      ELSE SetToSeq({ [op |-> "mul.powx", g |-> 2, base |-> b.base, affine |-> 0, k |-> Pad(s, 32), alias |-> al, api |-> "cpp", src |-> "gen"] :
+                      b \in { bb \in Bases(g) : bb.sub = 1 /\ bb.affine = 0 },
+                      s \in { Zero, One, Sub(RMod, One), RMod, Sub(Pow2(256), One), XAbs, Mul(XAbs, Mul(XAbs, XAbs)), ModPow2(Mul(Rnd(901), Rnd(951)), 256) }, al \in {0, 1} }))
      \* note: the statically dispatched 256-bit "multiply" is the accelerated routine and is only fed subgroup bases by the replayer filter below
 RecodeCases ==
   SetToSeq(UNION { { [op |-> "wnaf.recode", bits |-> bw[1], window |-> bw[2], k |-> Pad(s, bw[1] \div 8), src |-> "gen"] : s \in Scalars(bw[1]) } :
